@@ -56,6 +56,7 @@ class Check:
         self.assumptions = []
         self.exhaustive = None
         self.machinery_errors = []
+        self.keep_replays = False
 
     # ---- accounting -------------------------------------------------------------------------
     def add_tlc(self, name, r):
@@ -102,6 +103,10 @@ class Check:
             else:
                 known.setdefault(f["id"], []).append(d)
         rdir = os.path.join(VERIF, "replays", self.pid)
+        if os.path.isdir(rdir) and not self.keep_replays:
+            for fn in os.listdir(rdir):
+                if fn.endswith(".json"):
+                    os.unlink(os.path.join(rdir, fn))
         lines = []
         for fid, ds in sorted(known.items()):
             f = next(x for x in findings if x["id"] == fid)
